@@ -119,7 +119,12 @@ def suite_pt(ctx, case):
             tables[op['T']][keyfor(op['is'], types, op['s1']), keyfor(op['js'], types, op['s2'])] = objs[op['k']]
             drv.ask('pt.set %d %d | %s | %s' % (op['T'], op['k'], ' '.join(map(str, op['is'])), ' '.join(map(str, op['js']))))
         elif k == 'unset':
-            tables[op['T']].setUnset(objs[op['k']]); drv.ask('pt.unset %d %d' % (op['T'], op['k']))
+            # setUnset fills ONLY pairs never assigned: an assigned pair still holds the very object it held before (a reference the user read
+            # back earlier stays live)
+            tb = tables[op['T']]
+            held = {(a, b): tb[types[a], types[b]] for a in range(n) for b in range(n) if tb[types[a], types[b]] is not None}
+            tb.setUnset(objs[op['k']]); drv.ask('pt.unset %d %d' % (op['T'], op['k']))
+            ctx.pred('pairtable', sub, all(tb[types[a], types[b]] is o for (a, b), o in held.items()), 'setUnset replaced the object stored at a pair that was already assigned', key='C14:setunset-touches-assigned')
         elif k == 'applyin':
             r = tables[op['T']].apply(pure(op['kind'], op['x']), inplace=True)
             ctx.pred('pairtable', sub, r is tables[op['T']], 'apply(inplace=True) did not return the table itself', key='C14:apply-return')
@@ -191,7 +196,26 @@ def suite_vt(ctx, case):
         ctx.pred('valuetable', sub, ok, 'ValueTable differs from a keyed map after op %d' % step, key='C14:valuetable-map')
         if not ok: return
 
-SUITES = {'pairtable': suite_pt, 'valuetable': suite_vt}
+def suite_nonsym(ctx, case):
+    """PairTable(symmetric=False): apply(inplace=False) leaves the original untouched and shares nothing with it"""
+    n = case['n']; types = list(LABELS[case.get('labels', 'names')][:n])
+    t = PairTable(types, 'x', symmetric=False)
+    want = {}
+    for (i, j, v) in case['sets']:
+        t[types[i], types[j]] = list(v); want[(i, j)] = list(v)
+    before = {(i, j): copy.deepcopy(t[types[i], types[j]]) for i in range(n) for j in range(n)}
+    ok = all(before[(i, j)] == want.get((i, j)) for i in range(n) for j in range(n))
+    ctx.pred('nonsym', case, ok, 'non-symmetric table: (a,b) does not hold exactly what was assigned to (a,b)', key='C14:nonsym')
+    t2 = t.apply(lambda v: None if v is None else [e + 7 for e in v], inplace=False)
+    same = all(t[types[i], types[j]] == before[(i, j)] for i in range(n) for j in range(n))
+    for i in range(n):
+        for j in range(n):
+            o = t2[types[i], types[j]]
+            if isinstance(o, list): o.append(99)                      # mutate everything the new table holds
+    same2 = all(t[types[i], types[j]] == before[(i, j)] for i in range(n) for j in range(n))
+    ctx.pred('nonsym', case, same and same2, 'apply(inplace=False) on a non-symmetric table changed the original table (or shares objects / rows with it)', key='C14:nonsym')
+
+SUITES = {'pairtable': suite_pt, 'valuetable': suite_vt, 'nonsym': suite_nonsym}
 
 def idx_list(rng, n, style):
     if style == 'single': return [rng.randrange(n)]
@@ -231,6 +255,11 @@ def gen_vt(rng, max_ops):
     return {'n': n, 'ops': ops, 'arr': rng.random() < 0.35, 'labels': rng.choice(['names', 'names', 'ints0', 'ints', 'mixed'])}
 
 def generate(ctx):
+    for _ in range(ctx.n(30, 200)):
+        rng = ctx.rng; n = rng.choice([2, 3, 4])
+        sets = [[rng.randrange(n), rng.randrange(n), [rng.randrange(50) for _ in range(rng.randint(1, 3))]] for _ in range(rng.randint(1, n * n))]
+        case = {'n': n, 'sets': sets, 'labels': rng.choice(['names', 'ints0'])}
+        ctx.case('nonsym', case, True, tags=['nonsym']); suite_nonsym(ctx, case)
     max_ops = ctx.n(12, 40)
     for _ in range(ctx.n(500, 6000)):
         c = gen_pt(ctx.rng, max_ops)
